@@ -46,7 +46,10 @@ pub fn check(sc: &Scenario, out: &RunOutput) -> OracleResult {
         // The reader task must also have existed (accept/connect completed).
         let reader_node = if c.node == *wnode { c.to } else { c.node };
         let reader_started = h.apps().any(|(_, e)| e.node == reader_node && e.conn == *k && e.half == Half::R);
-        if keeps && reader_started && !out.cap_hit {
+        // (the guarantee is about the network dying, not about the reading side's application
+        // tearing its own socket down: a cancelled or killed socket takes what it held with it)
+        let reader_torn_down = h.evs.iter().any(|(_, ev)| matches!(ev, Ev::Fault(s) if s.trim() == format!("cancel socket token node {}", reader_node) || (s.starts_with("kill") && s.ends_with(&sc.addr(reader_node).to_string()))));
+        if keeps && reader_started && !out.cap_hit && !reader_torn_down {
             let mut claims: Vec<(T, u64, &'static str)> = a.flush_ok.iter().map(|(t, w)| (*t, *w, "flush")).collect();
             if let Some((t, w)) = a.shutdown_ok {
                 claims.push((t, w, "shutdown"));
